@@ -357,8 +357,67 @@ func init() {
 			if f["st"][0] == 'C' {
 				tp = 6
 			}
-			if _, err := gtab.VerifReadGsubSubtable(b, 0, tp); err != nil {
+			out, err := gtab.VerifReadGsubSubtable(b, 0, tp)
+			if err != nil {
 				return "fail:" + errKind(err)
+			}
+			if f["cmp"] != "no" {
+				want, got := otlShowCtx(st), otlShowCtx(out)
+				if want != got {
+					k := 0
+					for k < len(want) && k < len(got) && want[k] == got[k] {
+						k++
+					}
+					return fmt.Sprintf("fail:value differs at %d: wrote[%s]read[%s]", k,
+						want[max(0, k-20):min(len(want), k+30)], got[max(0, k-20):min(len(got), k+30)])
+				}
+			}
+			return "ok"
+		}))
+	}
+	// lookup list through the real code: Encode then readLookupList gives every lookup back: type,
+	// flags, mark filtering set, and subtables that start with the bytes written (no extension lookups
+	// in these small lists)
+	ops["otl.ll.rt"] = func(f Fields) string {
+		return canonPanic(guard(func() string {
+			ll, ext := otlParseLL(f["ll"])
+			if ext == 0 {
+				ext = 9
+			}
+			var b []byte
+			if guard(func() string { b = gtab.VerifEncodeLookupList(ll); return "" }) != "" {
+				return "ok"
+			}
+			out, err := gtab.VerifReadLookupList(b, 0, uint16(ext))
+			if err != nil {
+				return "fail:" + errKind(err)
+			}
+			if len(out) != len(ll) {
+				return fmt.Sprintf("fail:%d lookups read, %d written", len(out), len(ll))
+			}
+			for i, l := range ll {
+				o := out[i]
+				mfs := uint16(0)
+				if l.Meta.LookupFlags&gtab.UseMarkFilteringSet != 0 {
+					mfs = l.Meta.MarkFilteringSet
+				}
+				if o.Meta.LookupType != l.Meta.LookupType || o.Meta.LookupFlags != l.Meta.LookupFlags || o.Meta.MarkFilteringSet != mfs {
+					return fmt.Sprintf("fail:lookup %d read as %d/%d/%d, written %d/%d/%d", i, o.Meta.LookupType, o.Meta.LookupFlags,
+						o.Meta.MarkFilteringSet, l.Meta.LookupType, l.Meta.LookupFlags, mfs)
+				}
+				if len(o.Subtables) != len(l.Subtables) {
+					return fmt.Sprintf("fail:lookup %d: %d subtables read, %d written", i, len(o.Subtables), len(l.Subtables))
+				}
+				for j, st := range l.Subtables {
+					r, ok := o.Subtables[j].(*gtab.VerifRef)
+					if !ok {
+						return fmt.Sprintf("fail:lookup %d subtable %d unresolved", i, j)
+					}
+					enc := gtab.VerifSubtableEncode(st)
+					if int(r.Pos)+len(enc) > len(b) || !bytes.Equal(b[r.Pos:int(r.Pos)+len(enc)], enc) {
+						return fmt.Sprintf("fail:lookup %d subtable %d not at %d", i, j, r.Pos)
+					}
+				}
 			}
 			return "ok"
 		}))
@@ -722,6 +781,7 @@ func areaOtl(c *Ctx) {
 	// ---- lookup lists
 	otlLLSweep(c)
 	otlLLOffsetFamily(c)
+	otlLLWindowFamily(c)
 	// the reader's budget: lookups + subtables <= 6000
 	for _, line := range []string{
 		"1/0/0/" + strings.TrimSuffix(strings.Repeat("n:2:1|", 5999), "|"),
@@ -792,6 +852,7 @@ func areaOtl(c *Ctx) {
 				c.Stat("ll.read-outcome", "mutated:"+outcomeClass(o))
 			}
 			if len(b) <= 6000 {
+				c.Case(Direct, "otl.ll.rt", "ll="+line, true)
 				c.Case(Direct, "otl.ll.prop", fmt.Sprintf("ll=%s ext=%d data=%s", line, ext, hx(b)), true)
 			} else {
 				c.Case(Direct, "otl.ll.prop", fmt.Sprintf("ll=%s ext=%d sum=%s", line, ext, otlShowBytes(b)), true)
@@ -2551,6 +2612,35 @@ func otlSLArrangements(c *Ctx) {
 	}
 }
 
+// otlLLWindowFamily: small lists in which the header of a lookup table lies around the end of the
+// reader's first 1024-byte window (lookup table offsets 990..1035 from the start of the list), with
+// 1..4 subtable offsets behind it; D on the real code: every lookup comes back
+func otlLLWindowFamily(c *Ctx) {
+	for off := 990; off <= 1035; off++ {
+		ns := 1 + off%4
+		// [big, target(ns subtables, mark filtering set), small, filler]: header 2 + 2*4, big = 8 + v; the
+		// filler makes the list longer than two windows, so that a refill overwrites the whole buffer
+		v := off - 10 - 8
+		subs := make([]string, ns)
+		for k := range subs {
+			subs[k] = fmt.Sprintf("n:%d:%d", 4+k, k+1)
+		}
+		fl := []int{16, 0x0110, 1, 0}[off%4]
+		line := fmt.Sprintf("3/0/0/n:%d:%d;2/%d/%d/%s;1/0/0/g:5:3;4/0/0/n:1500:%d", v, off%251, fl, 7+off%5, strings.Join(subs, "|"), off%97)
+		c.Case(Verdict, "otl.ll.encode", "ll="+line, true)
+		o := c.Case(Direct, "otl.ll.rt", "ll="+line, true)
+		c.Stat("ll.window", outcomeClass(o))
+		ll, _ := otlParseLL(line)
+		b := gtab.VerifEncodeLookupList(ll)
+		c.Case(Verdict, "otl.ll.read", "ext=7 data="+hx(b), true)
+		if got := int(b[4])<<8 | int(b[5]); got != off {
+			c.Stat("ll.window", fmt.Sprintf("UNEXPECTED-offset-%d-for-%d", got, off))
+		}
+		// the same list inside a GSUB table: the lookup list starts at 10 + script list + feature list
+		c.Case(Verdict, "otl.gtab.read", "data="+hx((&gtab.Info{ScriptList: gtab.ScriptListInfo{}, FeatureList: gtab.FeatureListInfo{}, LookupList: ll}).Encode()), true)
+	}
+}
+
 // otlLLOffsetFamily: the offset of the second (third) LOOKUP table in the lookup list is exactly
 // 65534 ... 65538: from 65536 on the encoder has to reorder (the first lookup is moved to the end)
 func otlLLOffsetFamily(c *Ctx) {
@@ -3102,6 +3192,9 @@ func otlGenCtx(c *Ctx, i int) {
 	b := gtab.VerifSubtableEncode(ctxSt)
 	c.Stat("ctx.bytes", bucket(len(b)))
 	c.Case(Direct, "otl.ctx.len", fmt.Sprintf("%s size=%d declared=%d", args, len(b), gtab.VerifSubtableEncodeLen(ctxSt)), true)
+	if what == "regular" {
+		c.Case(Direct, "otl.ctx.rt", args, true)
+	}
 	if len(b) <= 2500 {
 		real, line := otlRealLL(parseFields(args))
 		c.Case(Direct, "otl.ll.prop", fmt.Sprintf("ll=%s ext=7 data=%s %s", line, hx(gtab.VerifEncodeLookupList(real)), args), true)
@@ -3223,7 +3316,11 @@ func otlGenCtxShapes(c *Ctx) {
 		emit("c1", fmt.Sprintf("st=c1 cov=%s sets=%s", cov, unchained))
 		emit("C1", fmt.Sprintf("st=C1 cov=%s sets=%s", cov, sets))
 		for _, k := range []string{"empty", cd} {
-			emit("c2", fmt.Sprintf("st=c2 cov=%s cd=%s sets=%s", cov, k, unchained))
+			cmp := ""
+			if k == "empty" && n > 1 {
+				cmp = " cmp=no" // the reader keeps NumClasses = 1 rule set (hypothesis hcls of the theorem)
+			}
+			emit("c2", fmt.Sprintf("st=c2 cov=%s cd=%s sets=%s%s", cov, k, unchained, cmp))
 			emit("C2", fmt.Sprintf("st=C2 cov=%s cb=%s ci=%s cl=%s sets=%s", cov, k, cd, k, sets))
 		}
 	}
@@ -3273,6 +3370,13 @@ func otlGenCtxShapes(c *Ctx) {
 	for k := 0; k < 2; k++ { // the second set starts at 65534 (written) / 65536 (refused)
 		emit("C2", fmt.Sprintf("st=C2 cov=5-7 cb=7:1 ci=5:1,6-7:2 cl=8:1 sets=-|1/%s/1>0:0|//>", strings.TrimSuffix(strings.Repeat("1.", 32729+k), ".")))
 		emit("C1", fmt.Sprintf("st=C1 cov=5-6 sets=1/%s/1>0:0|//>", strings.TrimSuffix(strings.Repeat("1.", 32748+k), ".")))
+	}
+	// long uint16 arrays (ReadUint16Slice): backtrack / lookahead class sequences of 32767 ... 65535
+	// entries in the last rule set of a ChainedSeqContext2 (the encoder permits it: the set STARTS low)
+	for _, n := range []int{32767, 32768, 32769, 40000, 65535} {
+		long := strings.TrimSuffix(strings.Repeat("1.", n), ".")
+		emit("C2", fmt.Sprintf("st=C2 cov=5-6 cb=7:1 ci=5-6:1 cl=8:1 sets=-|%s/1/1>0:0", long))
+		emit("C2", fmt.Sprintf("st=C2 cov=5-6 cb=7:1 ci=5-6:1 cl=8:1 sets=-|1/1/%s>0:0", long))
 	}
 	// ChainedSeqContext2: one set of n rules of 16 bytes, last rule offset 65524 / 65542 (as for format 1)
 	for _, n := range []int{3641, 3642} {
